@@ -69,8 +69,13 @@ impl QueuingMetricSinkBuilder {
         }));
 
         spawn_worker_in_thread(worker.clone());
+        let stopper = Arc::new(StopOnDrop(worker.clone()));
 
-        QueuingMetricSink { worker, sink }
+        QueuingMetricSink {
+            worker,
+            sink,
+            _stopper: stopper,
+        }
     }
 
     /// Set error handler called when the wrapped sink fails to emit a metric.
@@ -145,6 +150,7 @@ impl QueuingMetricSinkBuilder {
 pub struct QueuingMetricSink {
     worker: Arc<Worker>,
     sink: Arc<dyn MetricSink + Send + Sync + RefUnwindSafe>,
+    _stopper: Arc<StopOnDrop>,
 }
 
 impl fmt::Debug for QueuingMetricSink {
@@ -279,13 +285,17 @@ impl MetricSink for QueuingMetricSink {
     }
 }
 
-impl Drop for QueuingMetricSink {
+/// Shared by all clones of a `QueuingMetricSink` so that the worker is only
+/// told to stop once the last clone has been dropped.
+struct StopOnDrop(Arc<Worker>);
+
+impl Drop for StopOnDrop {
     /// Send the worker a signal to stop processing metrics.
     ///
     /// Note that this destructor only sends the worker thread a signal to
     /// stop, it doesn't wait for it to stop.
     fn drop(&mut self) {
-        self.worker.stop();
+        self.0.stop();
     }
 }
 
